@@ -323,6 +323,115 @@ def word_codec_maps(chk, dirs, rule='word-codec-map-consistent', floor=1):
            dirs[0], nontrivial=False)
 
 
+def _iw(ty):
+    return int(ty[1:]) if ty.startswith('i') and ty[1:].isdigit() else None
+
+
+def _split_losses(F):
+    """(leaves examined, findings).  A *word* is the result of a truncation (the low or high half cut out of a double-width accumulator)
+    or of a multiplication: all its bits are significant.  When every use of a word is a re-split -- constant shifts, constant masks,
+    ors, zero-extensions -- each of its bits must survive in one of the maximal split expressions; a bit that reaches none of them
+    has been dropped by a shift count or a mask that is off by one."""
+    def is_split(i):
+        if i['op'] in ('shl', 'lshr'):
+            return i['ops'][1]['k'] == 'c' and i['ops'][1]['v'] is not None
+        if i['op'] == 'and':
+            return any(o['k'] == 'c' and o['v'] is not None for o in i['ops'])
+        if i['op'] == 'zext':
+            return _iw(i.get('ty', '')) is not None
+        return i['op'] == 'or'
+
+    def opw(o, d):
+        if o['k'] == 'i':
+            return _iw(F.insts[o['v']].get('ty', '')) or d
+        if o['k'] == 'c':
+            return o.get('w') or d
+        return d
+    memo = {}
+
+    def ev(o, w):
+        if o['k'] == 'c':
+            v = (o['v'] or 0) & ((1 << w) - 1)
+            return [(v >> j) & 1 for j in range(w)]
+        if o['k'] != 'i':
+            return [None] * w
+        if o['v'] in memo:
+            return memo[o['v']]
+        i = F.insts[o['v']]
+        ww = _iw(i.get('ty', '')) or w
+        if not is_split(i):
+            r = [(i['id'], j) for j in range(ww)]
+        elif i['op'] == 'zext':
+            r = (ev(i['ops'][0], opw(i['ops'][0], ww)) + [0] * ww)[:ww]
+        elif i['op'] in ('shl', 'lshr'):
+            a = ev(i['ops'][0], ww)
+            s_ = i['ops'][1]['v']
+            r = ([0] * s_ + a)[:ww] if i['op'] == 'shl' else (a[s_:] + [0] * s_)[:ww]
+        else:
+            a, b = ev(i['ops'][0], ww), ev(i['ops'][1], ww)
+            r = []
+            for x, y in zip(a, b):
+                if i['op'] == 'and':
+                    r.append(0 if x == 0 or y == 0 else y if x == 1 else x if y == 1 else (x if x == y else None))
+                else:
+                    r.append(y if x == 0 else x if y == 0 else 1 if 1 in (x, y) else (x if x == y else None))
+        memo[o['v']] = r
+        return r
+    users = {}
+    for i in F.insts.values():
+        if i['op'] == 'dbgvalue':
+            continue
+        for o in i['ops']:
+            if o['k'] == 'i':
+                users.setdefault(o['v'], []).append(i)
+    kept = {}
+    for i in F.insts.values():
+        if i['op'] == 'dbgvalue' or not is_split(i):
+            continue
+        w = _iw(i.get('ty', ''))
+        if w and any(not is_split(x) for x in users.get(i['id'], [])):
+            for b in ev({'k': 'i', 'v': i['id']}, w):
+                if isinstance(b, tuple):
+                    kept.setdefault(b[0], set()).add(b[1])
+    n, bad = 0, []
+    for lid in sorted(kept):
+        L = F.insts[lid]
+        us = users.get(lid, [])
+        w = _iw(L.get('ty', ''))
+        if L['op'] not in ('trunc', 'mul') or not w or w > 64 or len(us) < 2 or not all(is_split(x) for x in us):
+            continue
+        n += 1
+        miss = [j for j in range(w) if j not in kept[lid]]
+        if miss:
+            bad.append((L, miss))
+    return n, bad
+
+
+def word_split_conserves_bits(chk, dirs, rule='word-split-conserves-bits', floor=1):
+    """multi-word arithmetic re-splits accumulator words across limb boundaries (th = t7 >> 62; t7 = ((t7 << 1) | (t6 >> 63)) & MASK63):
+    every bit of the word must be kept by one of the pieces"""
+    C = _control()
+    if not _split_losses(C.func('lintbad_word_split'))[1] or _split_losses(C.func('lintgood_word_split'))[1] or not _split_losses(C.func('lintgood_word_split'))[0]:
+        raise AnalysisBroken('lint controls for %s: positive not matched or negative matched' % rule)
+    P = wmw.program()
+    n = 0
+    for (un, fn), F in sorted(P.static.items()):
+        f = F.file().replace(build.REPO + '/', '')
+        if not any(f.startswith(d) for d in dirs):
+            continue
+        k, bad = _split_losses(F)
+        n += k
+        for L, miss in bad:
+            chk.violation(rule, '%s: a re-split word keeps all its bits' % fn, F.where(L),
+                          'bit%s %s of the %d-bit word computed here reach%s none of the pieces it is split into: the value is wrong whenever %s set'
+                          % ('s' if len(miss) > 1 else '', ', '.join(map(str, miss[:6])), _iw(L['ty']), '' if len(miss) > 1 else 'es', 'one of them is' if len(miss) > 1 else 'it is'),
+                          key='%s %s %s' % (rule, fn, miss[0]))
+    chk.count('accumulator words whose every use is a re-split, examined by %s' % rule, n)
+    if n < floor:
+        raise AnalysisBroken('%s: only %d words examined under %s (floor %d)' % (rule, n, dirs, floor))
+    chk.ok(rule, 'every fully re-split accumulator word under %s keeps all its bits (%d words; controls matched)' % (', '.join(dirs), n), dirs[0], nontrivial=False)
+
+
 def _ignored_results():
     """{(file, function, callee): number of call sites whose returned value has no use}, and per-callee used counts"""
     import collections
